@@ -47,7 +47,7 @@ META = {
 }
 PLAN = {
     "quick": {"shards": 16, "examples": 16000, "shrink_sigs": 2, "shrink_seconds": 6, "shrink_calls": 150},
-    "thorough": {"shards": 16, "examples": 2000000, "timeout": 3000, "shrink_sigs": 6},
+    "thorough": {"shards": 16, "examples": 600000, "timeout": 3000, "shrink_sigs": 6},
 }
 
 ORDER_OPS = ["LT", "LE", "GT", "GE"]
@@ -224,6 +224,19 @@ def _python_exception_match(err: Any, exc: Any) -> bool:
         raise  # raised by the matching itself (invalid ``exc``)
 
 
+_OP_GROUP = {"LT": "ORDER", "LE": "ORDER", "GT": "ORDER", "GE": "ORDER", "EQ": "EQ", "NE": "EQ", "IN": "IN", "NOT_IN": "IN",
+             "IS": "IS", "IS_NOT": "IS", "BOOL": "BOOL", "EXC_MATCH": "EXC", "SUBSCR_IN": "SUBSCR"}
+_FAMILY = {"float.-0": "float", "float.subnormal": "float", "bytearray": "bytes", "list": "seq", "tuple": "seq", "frozenset": "set",
+           "iter": "iterator", "gen": "iterator", "decimal.huge": "decimal", "decimal.inf": "decimal.nonfinite",
+           "decimal.nan": "decimal.nonfinite", "decimal.snan": "decimal.nonfinite", "fraction.huge": "fraction",
+           "complex.huge": "complex", "none": "other", "bool": "int", "plain": "other", "type": "other", "func": "other", "slice": "other"}
+
+
+def _family(cat: str) -> str:
+    """Coarser operand class for failure signatures (root-cause buckets); labels keep the fine class."""
+    return _FAMILY.get(cat, cat)
+
+
 def _aspects(case: dict[str, Any]) -> tuple[str, str]:
     if case["kind"] == "bool":
         return "truth", "truth"
@@ -241,11 +254,13 @@ def evaluate(case: dict[str, Any]) -> Outcome:
     asp1, asp2 = _aspects(case)
     c1 = V.category(r1, asp1)
     c2 = V.category(r2, asp2) if kind != "bool" else "-"
-    cats = f"{c1},{c2}"
+    f1, f2 = _family(c1), _family(c2)
+    # symmetric comparisons: the operand order is not part of the root cause
+    cats = ",".join(sorted([f1, f2])) if _OP_GROUP[op] in ("ORDER", "EQ", "IS") else f"{f1},{f2}"
     out.labels += [f"op:{op}", f"cat:{c1}"] + ([f"cat:{c2}"] if kind != "bool" else [])
 
     def fail(what: str, detail: str) -> None:
-        out.fail(f"{op}|{cats}|{what}", f"case={case!r}\n{detail}")
+        out.fail(f"{_OP_GROUP[op]}|{cats}|{what}", f"case={case!r}\n{detail}")
 
     # ---- reference on fresh copies
     a = V.materialise(r1)
@@ -315,7 +330,7 @@ def evaluate(case: dict[str, Any]) -> Outcome:
     ref_pairs = set(ref_log)
     new_ops = sorted({entry[0].rsplit(".", 1)[1] for entry in tr_log if entry not in ref_pairs})
     if new_ops:
-        fail("new-operator:" + "+".join(new_ops), f"reference log {ref_log!r}\ntracer log {tr_log!r}")
+        fail("new-operator:" + new_ops[0], f"operators not invoked by the comparison itself: {new_ops}\nreference log {ref_log!r}\ntracer log {tr_log!r}")
     if len(tr_log) > len(set(tr_log)) or any(e in ref_pairs for e in tr_log):
         out.labels.append("repeated-user-operator")
 
